@@ -19,7 +19,7 @@ def _jobs(ctx):
     n = 40 if q else 500
     return (sc.corpus_job(ctx) + [(f'rates{k}', ['rates_syn', n]) for k in range(6 if q else 10)]
             + [(f'one{k}', ['one_step', n]) for k in range(3 if q else 6)] + [(f'ship{k}', ['shipped_sync', n]) for k in range(3 if q else 6)]
-            + [('fixrec', ['fixrec', n]), ('sibling', ['isolate', n]), ('varfix', ['varfix', n]), ('nested', ['composed_syn', n])])
+            + [('fixrec', ['fixrec', n]), ('sibling', ['isolate', n]), ('varfix', ['varfix', n]), ('nested', ['composed_syn', n]), ('big', ['bigloci', 3 if q else 8])])
 
 
 def tie(ctx):
